@@ -30,6 +30,14 @@ func main() {
 		os.Exit(cmdCheck(os.Args[2:]))
 	case "lock":
 		os.Exit(cmdLock(os.Args[2:]))
+	case "locals":
+		// (re)write /verif/locals.lock: the named locals of every function under contract (rename-tolerant binding)
+		c, err := loadProgram("/repo", []string{"./..."}, nil)
+		if err != nil {
+			fmt.Fprintln(os.Stderr, err)
+			os.Exit(2)
+		}
+		c.writeLocalsLock()
 	case "list":
 		cmdList(os.Args[2:])
 	case "selftest":
